@@ -93,7 +93,7 @@ def run(chk):
     os.environ["YV_LONG_REGIMES"] = "1"
     try:
         lf = os.path.join(wd, "long.ndjson")
-        run_harness(yv, ["ind-record", chk.seed * 100 + 3, 72 if quick else 216, 1500 if quick else 4000, 1, lf], timeout=3000)
+        run_harness(yv, ["ind-record", chk.seed * 100 + 3, 180 if quick else 540, 1500 if quick else 4000, 1, lf], timeout=3000)
     finally:
         os.environ.pop("YV_LONG_REGIMES", None)
     cur = None
